@@ -170,22 +170,34 @@ pub fn make_emb(seed: u64) -> Emb {
 }
 
 const AMT_UNIT: u64 = 1 << 30; // RangeBound = 4 units = 2^32
-fn scal(kind: &str, v: u64) -> u64 {
-    match kind {
-        "asset" => v * 7,
-        "fee" => v * 25,
+/// scalar embeddings. mode 0: unrelated scales. mode 1: asset and fee move by the SAME step in OPPOSITE directions,
+/// mode 2: in the same direction - so that a conflict in both fields cancels in a sum / a difference of deviations
+/// (a constraint that merges the two comparisons linearly would accept such batches).
+fn scal(kind: &str, v: u64, mode: u64) -> u64 {
+    match (kind, mode) {
+        ("asset", 0) => v * 7,
+        ("fee", 0) => v * 25,
+        ("asset", _) => 40 + 9 * v,
+        ("fee", 1) => 60 - 9 * v,
+        ("fee", _) => 60 + 9 * v,
         _ => v * 100_003,
     }
 }
+fn scal_table() -> Value {
+    let t = |k: &str, m: u64| -> Vec<u64> { (0..10).map(|v| if k == "fee" && m == 1 && v > 6 { 0 } else { scal(k, v, m) }).collect() };
+    json!([{"asset": t("asset", 0), "fee": t("fee", 0), "number": t("number", 0)},
+           {"asset": t("asset", 1), "fee": t("fee", 1), "number": t("number", 1)},
+           {"asset": t("asset", 2), "fee": t("fee", 2), "number": t("number", 2)}])
+}
 
-fn child_vec(c: &Value, emb: &Emb) -> Vec<u64> {
+fn child_vec(c: &Value, emb: &Emb, mode: u64) -> Vec<u64> {
     let g = |k: &str| c[k].as_u64().unwrap();
-    let mut v = vec![scal("asset", g("asset")), g("out1") * AMT_UNIT, g("out2") * AMT_UNIT, scal("fee", g("fee"))];
+    let mut v = vec![scal("asset", g("asset"), mode), g("out1") * AMT_UNIT, g("out2") * AMT_UNIT, scal("fee", g("fee"), mode)];
     v.extend(emb.dig[&g("null")]);
     v.extend(emb.dig[&g("exit1")]);
     v.extend(emb.dig[&g("exit2")]);
     v.extend(emb.dig[&g("block")]);
-    v.push(scal("number", g("number")));
+    v.push(scal("number", g("number"), mode));
     v
 }
 
@@ -247,7 +259,8 @@ pub fn pb_replay(inp: &str, outp: &str, seed: u64) -> Result<()> {
             let n = c["n"].as_u64().unwrap() as usize;
             let w = cached(&cache, 0, n);
             let Some(w) = w.as_ref() else { return json!({"built": 0}) };
-            let children: Vec<Vec<u64>> = c["ch"].as_array().unwrap().iter().map(|x| child_vec(x, &emb)).collect();
+            let mode = c["mode"].as_u64().unwrap_or(0);
+            let children: Vec<Vec<u64>> = c["ch"].as_array().unwrap().iter().map(|x| child_vec(x, &emb, mode)).collect();
             let pre: Vec<[u64; 4]> = c["hh"].as_array().unwrap().iter().map(|x| emb.pre[&x.as_u64().unwrap()]).collect();
             let inputs = w.inputs(&children, &pre);
             let honest = engine::run(&w.data, &inputs);
@@ -261,19 +274,19 @@ pub fn pb_replay(inp: &str, outp: &str, seed: u64) -> Result<()> {
         .collect();
     let mut fo = fs::File::create(outp)?;
     let digs: BTreeMap<String, Vec<u64>> = emb.dig.iter().map(|(k, v)| (k.to_string(), v.to_vec())).collect();
-    writeln!(fo, "{}", json!({"emb": {"dig": digs, "amt_unit": AMT_UNIT, "asset": 7, "fee": 25, "number": 100_003}}))?;
+    writeln!(fo, "{}", json!({"emb": {"dig": digs, "amt_unit": AMT_UNIT, "scal": scal_table()}}))?;
     for r in rows {
         writeln!(fo, "{}", r)?;
     }
     Ok(())
 }
 
-fn inner_vec(b: &Value, n: usize, emb: &Emb, junk: u64) -> Vec<u64> {
+fn inner_vec(b: &Value, n: usize, emb: &Emb, junk: u64, mode: u64) -> Vec<u64> {
     let g = |k: &str| b[k].as_u64().unwrap();
     // header: [nslots, asset, fee, block(4), number]; nslots and padding are not read by the public batch
-    let mut v = vec![if junk % 2 == 0 { 2 * n as u64 } else { 999 }, scal("asset", g("asset")), scal("fee", g("fee"))];
+    let mut v = vec![if junk % 2 == 0 { 2 * n as u64 } else { 999 }, scal("asset", g("asset"), mode), scal("fee", g("fee"), mode)];
     v.extend(emb.dig[&g("block")]);
-    v.push(scal("number", g("number")));
+    v.push(scal("number", g("number"), mode));
     for s in b["slots"].as_array().unwrap() {
         v.push(s[0].as_u64().unwrap() * AMT_UNIT);
         v.extend(emb.dig[&s[1].as_u64().unwrap()]);
@@ -301,7 +314,8 @@ pub fn qb_replay(inp: &str, outp: &str, seed: u64) -> Result<()> {
             let w = cached(&cache, m, n);
             let Some(w) = w.as_ref() else { return json!({"built": 0}) };
             let junk = c["pick"].as_u64().unwrap_or(0);
-            let children: Vec<Vec<u64>> = inn.iter().enumerate().map(|(i, x)| inner_vec(x, n, &emb, junk + i as u64)).collect();
+            let mode = c["mode"].as_u64().unwrap_or(0);
+            let children: Vec<Vec<u64>> = inn.iter().enumerate().map(|(i, x)| inner_vec(x, n, &emb, junk + i as u64, mode)).collect();
             let addr = emb.dig[&c["addr"].as_u64().unwrap()];
             let inputs = w.inputs(&children, &[addr]);
             let honest = engine::run(&w.data, &inputs);
@@ -315,7 +329,7 @@ pub fn qb_replay(inp: &str, outp: &str, seed: u64) -> Result<()> {
         .collect();
     let mut fo = fs::File::create(outp)?;
     let digs: BTreeMap<String, Vec<u64>> = emb.dig.iter().map(|(k, v)| (k.to_string(), v.to_vec())).collect();
-    writeln!(fo, "{}", json!({"emb": {"dig": digs, "amt_unit": AMT_UNIT, "asset": 7, "fee": 25, "number": 100_003}}))?;
+    writeln!(fo, "{}", json!({"emb": {"dig": digs, "amt_unit": AMT_UNIT, "scal": scal_table()}}))?;
     for r in rows {
         writeln!(fo, "{}", r)?;
     }
@@ -512,8 +526,8 @@ pub fn record(outp: &str, nplans: usize, kind: &str, seed: u64, big: bool) -> Re
                         let dummy = rng.gen_bool(0.3);
                         let mut v = vec![
                             if rng.gen_bool(0.8) { 2 * n as u64 } else { rng.gen::<u32>() as u64 },
-                            if rng.gen_bool(0.85) { asset } else { asset ^ 1 },
-                            if rng.gen_bool(0.85) { fee } else { fee + 1 },
+                            { let both = rng.gen_bool(0.08); if both || rng.gen_bool(0.1) { asset.wrapping_add(1) } else { asset } },
+                            { if rng.gen_bool(0.16) { if rng.gen_bool(0.5) { fee + 1 } else { fee.saturating_sub(1) } } else { fee } },
                         ];
                         v.extend(if dummy { [0u64; 4] } else if rng.gen_bool(0.85) { blocks[0] } else { blocks[1] });
                         v.push(rng.gen::<u32>() as u64);
